@@ -78,7 +78,8 @@ def run(ck):
                      "mdmf-directory", "sdmf-directory", "literal-directory", "immutable-root-walk",
                      "lone-unknown-writecap-add-attempted", "lone-unknown-writecap-via-set_uri", "lone-unknown-writecap-via-set_children",
                      "lone-unknown-writecap-via-initial-children", "blacklisted-child-repacked")
-    ck.require_monitor("sibling-write-cap-known-plaintext")
+    ck.require_monitor("sibling-write-cap-known-plaintext", "share-fields-visible-to-readers")
+    ck.require_reach("writer-verified-then-modified-same-node", "writekey-decrypts-signing-key")
 
 
 def one_case(ck, g, rng, caseno):
@@ -334,6 +335,27 @@ def one_case(ck, g, rng, caseno):
 
     root = build_mut_dir(1, is_root=True)
 
+    # ---- the writer runs a VERIFYING check (or check-and-repair / deep-check) on a directory and then modifies it through
+    #      the very same node object: what the next publish writes into the shares is visible to every reader
+    from allmydata.monitor import Monitor
+    vt = [root] + [o for o in allobjs if o.kind in ("dir-sdmf", "dir-mdmf") and o is not root and rng.random() < .3][:2]
+    for o in vt:
+        if rng.random() < .2:
+            continue
+        how = rng.choice(["check", "check", "check_and_repair", "deep-check"])
+        if how == "check":
+            D.ok(g, o.node.check(Monitor(), verify=True), "check(verify=True)")
+        elif how == "check_and_repair":
+            D.ok(g, o.node.check_and_repair(Monitor(), verify=True), "check_and_repair(verify=True)")
+        else:
+            D.ok(g, o.node.start_deep_check(verify=True).when_done(), "deep-check(verify=True)")
+        lname = "after-verify-%s" % tag().decode()
+        lo = Obj("lit", D.lit_cap(b"v" + tag()), None, b"")
+        allobjs.append(lo)
+        D.ok(g, o.node.set_uri(lname, None, lo.cap), "modify after verify")
+        o.links[lname] = Link(lo, None, "linked-after-%s-verify" % how, None)
+        ck.hit("writer-verified-then-modified-same-node")
+
     # ---- a read-write child is put on the WRITER's access.blacklist; the writer then re-packs that very entry
     #      (metadata update / rename / re-link): the stored entry must still keep the write-cap out of readers' reach
     bl = [(p_, n_, l_) for p_ in allobjs if p_.kind in ("dir-sdmf", "dir-mdmf") for n_, l_ in sorted(p_.links.items())
@@ -533,6 +555,45 @@ def one_case(ck, g, rng, caseno):
             secrets.append(("unknown cap given in the write-cap slot" + ("" if o.pair[1] else " only"), o.pair[0], None))
     reader = g.make_client(k=1, happy=1, n=nserv)
     nontrivial = False
+    # ---- raw share fields: a read-cap holder knows the storage index and may read every byte of every share
+    for o in allobjs:
+        if o.info is None or not o.info.writekey:
+            continue
+        seen_field = False
+        for srv in reader.storage_broker.get_connected_servers():
+            st_, shares_ = g.wait(srv.get_storage_server().slot_readv(o.info.si, [], [(0, 4000000)]))
+            if st_ != "ok":
+                continue
+            for shnum, vec in sorted(shares_.items()):
+                F = D.enc_privkey_field(vec[0])
+                if not F:
+                    continue
+                seen_field = True
+                ck.mon("share-fields-visible-to-readers")
+                wit = dict(desc, object=o.kind, readcap=D.show(o.info.readonly), share=shnum, field_bytes=len(F))
+                # (a) with read-cap material only: the raw field must not BE the signing key (its hash chain ends in the read key)
+                for cand in (F, D.der_trim(F)):
+                    if D.M.ssk_readkey(D.writekey_of_signing_key(cand)) == o.info.readkey:
+                        ck.violation("signing-key-readable-in-share",
+                                     "the enc_privkey field of a %s share holds the RSA signing key in the clear: H(field) is the writekey "
+                                     "of the object (checked against the read-cap's readkey), so any reader derives the write-cap" % o.kind, wit)
+                        break
+                for label, km in (("readkey", o.info.readkey), ("storage-index", o.info.si), ("fingerprint[:16]", o.info.fp[:16])):
+                    P = D.der_trim(D.aes128_ctr(km, F))
+                    if D.M.ssk_readkey(D.writekey_of_signing_key(P)) == o.info.readkey:
+                        ck.violation("signing-key-readable-in-share", "enc_privkey decrypts to the signing key under the %s" % label, wit)
+                # (b) not vacuous: under the writekey it does decrypt to the signing key
+                P = D.der_trim(D.aes128_ctr(o.info.writekey, F))
+                if D.writekey_of_signing_key(P) != o.info.writekey:
+                    ck.violation("enc-privkey-not-decryptable-with-writekey",
+                                 "AES-CTR(writekey) of the enc_privkey field of a %s share does not hash to the writekey" % o.kind, wit)
+                else:
+                    ck.hit("writekey-decrypts-signing-key")
+                break
+            if seen_field:
+                break
+        if not seen_field:
+            ck.observe("no-share-field-read-for-mutable-object")
     for o in allobjs:
         if o.kind not in ("dir-sdmf", "dir-mdmf"):
             continue
